@@ -11,10 +11,11 @@ BaseOk(tree) == Accepted(Run([tree |-> StripLocks(tree), flags |-> {"DONT_VALIDA
                                   puzzle_amount |-> <<>>, parent_amount |-> <<>>, parent_puzzle |-> <<>>], validKeys |-> {}]))
 MatchTl(e) ==
   /\ ~e.panic
-  /\ LET base == BaseOk(e.tree) IN
+  /\ LET tree == FromJ(e.tree)
+         base == BaseOk(tree) IN
      \A i \in DOMAIN e.chains :
        LET ch == e.chains[i] IN
-       ConsistentChain(ch) => (ch.ok = (base /\ Oracle(e.tree, ch)))
+       ConsistentChain(ch) => (ch.ok = (base /\ Oracle(tree, ch)))
   \* a bundle rejected at parse time has no satisfying chain state among those tried
   /\ ~e.parse_ok => \A i \in DOMAIN e.chains : ~e.chains[i].ok
 
